@@ -43,6 +43,11 @@ STMT_PROGS = [
     ("def f(a, b, d, t):\n    return a  " + MARK + "[undefined_name]\n", "unused_ignore"),
     ("def f(a, b, d, t):\n    " + MARK + "[undefined_name]\n    return a\n", "unused_ignore"),
     ("def f(a, b, d, t):\n    return a  " + MARK + "\n", "unused_ignore"),
+    # an awaitable that is not awaited: in an async def, in a plain def nested in an async def, in a method of a class local to an async def, in a lambda-free nested async def
+    ("async def coro(x):\n    return x\ndef f(a, b, d, t):\n    async def outer():\n        coro(a)\n        return b\n    return 1\n", "missing_await"),
+    ("async def coro(x):\n    return x\ndef f(a, b, d, t):\n    async def outer():\n        def inner():\n            coro(a)\n            return b\n        return inner()\n    return 1\n", "missing_await"),
+    ("async def coro(x):\n    return x\ndef f(a, b, d, t):\n    async def outer():\n        class K:\n            def m(self):\n                coro(a)\n        return K\n    return 1\n", "missing_await"),
+    ("async def coro(x):\n    return x\ndef f(a, b, d, t):\n    def plain():\n        async def inner():\n            coro(a)\n        return inner\n    return 1\n", "missing_await"),
 ]
 PRE = ("def h(*args, **kw):\n    return (args, tuple(sorted(kw.items())))\ndef g3(p, q, r):\n    return (p, q, r)\ndef g3po(p, q, /, r):\n    return (p, q, r)\n"
        "def dec(x):\n    return lambda fn: fn\n")
